@@ -33,6 +33,7 @@ import (
 	"io"
 	"io/ioutil"
 	"net"
+	"runtime"
 	"strconv"
 	"strings"
 	"sync"
@@ -1128,7 +1129,26 @@ func (c *Conn) exec(ctx context.Context, req frameBuilder, tracer Tracer) (*fram
 		})
 	}
 
-	err := req.buildFrame(framer, stream)
+	err := func() (err error) {
+		// The frame writers panic when asked for something the protocol version cannot
+		// carry (a custom payload before version 4, a keyspace before version 5). The call
+		// is registered by now: leaving through the panic would keep its stream for ever
+		// and make the next closeWithError wait for this call for ever. It is reported
+		// like any other frame that cannot be built.
+		defer func() {
+			if r := recover(); r != nil {
+				if _, ok := r.(runtime.Error); ok {
+					panic(r)
+				}
+				if e, ok := r.(error); ok {
+					err = e
+				} else {
+					err = fmt.Errorf("gocql: %v", r)
+				}
+			}
+		}()
+		return req.buildFrame(framer, stream)
+	}()
 	if err != nil {
 		// closeWithError will block waiting for this stream to either receive a response
 		// or for us to timeout.
